@@ -11,10 +11,32 @@ type Mutex = vsched.Mutex
 
 // Once, WaitGroup and Map keep their native implementation (not used on the explored paths).
 type (
-	Once      = stdsync.Once
 	WaitGroup = stdsync.WaitGroup
 	Locker    = stdsync.Locker
 )
+
+// Once is sync.Once on the cooperative mutex: a second caller parks (visibly to the
+// scheduler) until the first has finished; if f panics the Once counts as done.
+type Once struct {
+	done bool
+	m    vsched.Mutex
+}
+
+func (o *Once) Do(f func()) {
+	vsched.AtomicLoad(&o.done)
+	if o.done {
+		return
+	}
+	o.m.Lock()
+	defer o.m.Unlock()
+	if !o.done {
+		defer func() {
+			o.done = true
+			vsched.AtomicStore(&o.done)
+		}()
+		f()
+	}
+}
 
 // Pool is a deterministic LIFO pool: Get returns the most recently Put object.
 type Pool struct {
